@@ -142,15 +142,19 @@ theorem step_refines_swap (s : Sys) (sp : Spec.SSys) (k j : Nat)
     simp only [Spec.step] at h
     exact Option.some.inj h
 
+/-- `operator<` of every element kind of the harness is asymmetric (it is a strict weak order) -/
+theorem ltOf_asymm (k : Kind) (x y : Nat) (h : ltOf k x y = true) : ltOf k y x = false := by
+  cases k <;> simp only [ltOf, decide_eq_true_eq, decide_eq_false_iff_not] at h ⊢ <;> omega
+
 theorem step_refines_cmp (s : Sys) (sp : Spec.SSys) (k j : Nat)
     (hinv : Inv s) (hrel : Rel s sp) (hv : valid s k (.cmp j) = true) : StepOk s sp k (.cmp j) := by
   simp only [valid, Bool.and_eq_true, decide_eq_true_eq] at hv
   obtain ⟨⟨hs, hk⟩, hj⟩ := hv
   obtain ⟨d, hd⟩ := getElem?_of_lt hk
   obtain ⟨o, ho⟩ := getElem?_of_lt hj
-  refine ⟨s, .rels (Spec.rels d o), ?_, hinv, rfl, rfl, rfl, rfl, ?_, ?_⟩
+  refine ⟨s, .rels (Spec.rels (ltOf s.kind) (eqOf s.kind) d o), ?_, hinv, rfl, rfl, rfl, rfl, ?_, ?_⟩
   · simp only [step, hs, Bool.not_true, Bool.false_eq_true, if_false, rd_of_get ho, rd_of_get hd, ok_bind,
-      relOps_eq]
+      relOps_eq _ _ (ltOf_asymm s.kind)]
   · simp only [Spec.step]
     split <;> exact hrel
   · intro o' h
@@ -160,6 +164,7 @@ theorem step_refines_cmp (s : Sys) (sp : Spec.SSys) (k j : Nat)
       have h1 : d = a := getObj_eq hrel hd a ha
       have h2 : o = b := getObj_eq hrel ho b hb
       subst h1 h2
+      rw [hrel.2.2.2] at h
       exact Option.some.inj h
     · simp at h
 
